@@ -538,7 +538,9 @@ impl Value {
             (Tag(l), Tag(r)) => l == r,
             (Byte(l), Byte(r)) => l == r,
             (Int(l), Int(r)) => l == r,
-            (Float(l), Float(r)) => l == r,
+            // Object identity, a NaN must be identical to itself (a rooted NaN has to be found
+            // again when it is unrooted)
+            (Float(l), Float(r)) => l.to_bits() == r.to_bits(),
             _ => unreachable!(),
         }
     }
